@@ -59,7 +59,10 @@ PROPS: Dict[str, Dict[str, Any]] = {
                          "C18_singleton_ntuple_valid", "C18_singleton_ntuple_invalid", "C18_singleton_map_valid",
                          "C18_singleton_map_invalid", "C18_union_one", "C18_union_iff", "C18_add_predicate",
                          "C18_forbid_unknown", "C05_maybe_just_valid", "C05_maybe_just_invalid", "C05_lazy",
-                         "C05_user", "C05_optional_inner_valid", "C05_optional_none"],
+                         "C05_user", "C05_optional_inner_valid", "C05_optional_none",
+                         "C18_add_seq_predicate", "C18_add_map_predicate", "C18_require_key", "recLoop_require",
+                         "C18_singleton_record_valid", "C18_singleton_record_invalid", "mapPre_iff"],
+            "modules": ["KodaModel.Properties.C18", "KodaModel.Properties.C18More", "KodaModel.Properties.C05"],
             "stream": "core", "opts": {"salt": "c18", "gen": ["streams", "gen_c18_case"], "async_rate": 0.1},
             "quick_n": 5000, "thorough_n": 100000, "fields": ["out"]},
     "C16": {"theorems": ["C16_decimal", "C16_uuid", "C16_date", "C16_datetime", "C16_tuple", "C16_never",
